@@ -54,6 +54,7 @@ struct C15 : Scenario {
             }
             plan_file(p, "track.txt", t);
             c.to_plan(p);
+            p.seti("sigint", r.chance(0.5) ? r.range(0, 1000000) : -1);
             return p;
         }
         p.seti("n", mode == "ensemble" ? r.range(32, 64) : r.range(8, 48));
@@ -287,6 +288,31 @@ struct C15 : Scenario {
             double q = pd->at(i), p = pd->at(i + 1);
             bool ok = std::isfinite(q) && std::isfinite(p) && q >= d.qmin - 1e-4 && q <= d.qmax + 1e-4 && p >= d.pmin - 1e-4 && p <= d.pmax + 1e-4;
             if (!ok) { o.fail("C15.particles_output", "record " + std::to_string(i / 2 / std::max<size_t>(np, 1)) + " particle " + std::to_string((i / 2) % std::max<size_t>(np, 1)) + ": stored coordinates (" + fmt_g(q, 7) + "," + fmt_g(p, 7) + ") outside the grid [" + fmt_g(d.qmin, 5) + "," + fmt_g(d.qmax, 5) + "]x[" + fmt_g(d.pmin, 5) + "," + fmt_g(d.pmax, 5) + "]"); break; }
+        }
+        // "moved by each step the same way the charge around it is moved" across an interrupt: a run that is ended by SIGINT at a
+        // seeded hook point finishes the step in progress for the grid AND for the particles, so its last /Particles row must be the
+        // row of a run configured to stop at that step (same entropy stream)
+        if (plan.geti("sigint", -1) >= 0 && d.laststep > 0) {
+            long H = r.sumi("point_hits");
+            Cfg ci = cfg; ci.output = "I.h5";
+            Launch li = make_launch(ci, rc.workdir, "I", plan.getu("entropy"), 0);
+            li.rt.sigint_points = {H > 0 ? plan.geti("sigint") % H : 0};
+            LaunchResult ri = run_launch(li); o.launches++;
+            if (!ri.exited || ri.code != 0) { o.fail("C15.program_run", "interrupted run with tracked particles ended with " + ri.describe() + " " + tail(ri.err)); return; }
+            unsigned j = (unsigned)ri.sumi("steps_done");
+            Cfg cs = cfg; cs.output = "S.h5"; cs.rotations = j == 0 ? 0 : (j - 0.5) / d.steps;
+            Launch ls = make_launch(cs, rc.workdir, "S", plan.getu("entropy"), 0);
+            LaunchResult rs = run_launch(ls); o.launches++;
+            H5Snap si = h5_read(rc.workdir + "/I.h5"), ss = h5_read(rc.workdir + "/S.h5");
+            if (!rs.exited || rs.code != 0 || !si.ok || !ss.ok || (unsigned)rs.sumi("steps_done") != j) { o.set_infra("reference run stopping at step " + std::to_string(j) + " failed: " + rs.describe()); return; }
+            o.checks++; o.fault("sigint_point"); o.probe("reach.interrupted_run_with_particles");
+            size_t ri_rows = si.rows("/Particles/data"), rs_rows = ss.rows("/Particles/data");
+            if (ri_rows == 0 || rs_rows == 0) o.fail("C15.particles_after_interrupt", "no particle record in the interrupted run or its reference");
+            else {
+                std::string e = cmp_row(si, ri_rows - 1, ss, rs_rows - 1, "/Particles/data");
+                if (!e.empty()) o.fail("C15.particles_after_interrupt", "run interrupted in step " + std::to_string(j) + " (hook point " + std::to_string(li.rt.sigint_points[0]) + "): its final particle record is not the one of a run that stops after step " + std::to_string(j) + ": " + e);
+            }
+            o.mixfp(ri.evhash()); o.mixfp(si.digest());
         }
         o.fault("entropy_reads", r.sumi("entropy_reads"));
         o.probe("cls.prog.trk" + std::to_string(cfg.fptrack) + (d.has_wake ? ".wake" : "") + (d.dynamic_rf ? ".dyn" : ""));
